@@ -119,6 +119,15 @@ def exhaustive(tier):
             yield {"spec": {"kind": "list", "req": True, "opts": {}, "validator": None, "item": item}, "value": vals}
             if item["kind"] != "bytes":
                 yield {"spec": {"kind": "dict", "req": True, "opts": {}, "validator": None, "keyf": leaf("str"), "valuef": item}, "value": {"k%d" % i: v for i, v in enumerate(vals)}}
+    # string-derived fields with the transforms they inherit: what is judged (address or name, choice, ...) is the TRANSFORMED text
+    for allow in (False, True):
+        for strip in (True, " '", "\n"):
+            for case_opt in (None, "lower"):
+                opts = {"allow_ipv4": allow, "transform_strip": strip}
+                if case_opt:
+                    opts["transform_case"] = case_opt
+                for v in (" 10.0.0.1", "10.0.0.1\n", "'192.168.1.1'", "10.0.0.1", " host.example ", "HOST.example\n", "'name'", " 999.1.1.1 ", ""):
+                    yield {"spec": {"kind": "host", "req": False, "opts": opts, "validator": None}, "value": v}
     # byte strings of every length up to 130 and a few longer ones (line-wrapping encoders change behaviour at 57 / 76)
     for enc in ("base64", "hex"):
         for n in list(range(0, 131, 1 if tier != "quick" else 3)) + [57, 58, 76, 77, 114, 115, 171, 172, 300, 1000]:
